@@ -43,7 +43,8 @@ func runC15(c *Ctx) {
 	if !bootWeb(c, cfg) {
 		return
 	}
-	userName := []string{"alice", "bob@corp.test", "administrator", "u"}[c.T.Choose(4)]
+	// (also names with characters that have no short escape in JSON)
+	userName := []string{"alice", "bob@corp.test", "administrator", "u", "al\aice", "esc\x1bname", "del\x7fx", "v\vt", "astral\U0001F600\U000E0001x"}[c.T.Choose(9)]
 	user := &env.IdPUser{Sub: "s-" + userName, Claims: map[string]any{"preferred_username": userName}}
 	// history: a moment earlier a different account, whose name differs from this one only in
 	// case (or extends it), got a token of its own
